@@ -5,13 +5,13 @@ import os, sys, json, re, shutil
 V = os.path.dirname(os.path.dirname(os.path.abspath(__file__)))
 roots = sys.argv[1:] or ["/tmp/seed"]
 confirm = {}
-for f in ("/tmp/confirm.log", "/tmp/confirm2.log", "/tmp/confirm3.log", "/tmp/confirm4.log", "/tmp/confirm5.log", "/tmp/confirm_ported.log"):
+for f in ("/tmp/confirm.log", "/tmp/confirm2.log", "/tmp/confirm3.log", "/tmp/confirm4.log", "/tmp/confirm5.log", "/tmp/confirm6.log", "/tmp/confirm_ported.log"):
     if os.path.exists(f):
         for l in open(f):
             p = l.split()[0]
             confirm[p] = l.strip()[len(p) + 1:]
 detect = {}
-for f in ("build/seed_matrix.log", "build/seed_matrix2.log", "/tmp/r3_first.log", "/tmp/r4_first.log", "/tmp/r5_first.log"):
+for f in ("build/seed_matrix.log", "build/seed_matrix2.log", "/tmp/r3_first.log", "/tmp/r4_first.log", "/tmp/r5_first.log", "/tmp/r6_first.log"):
     f = os.path.join(V, f)
     if os.path.exists(f):
         for l in open(f):
@@ -20,10 +20,12 @@ for f in ("build/seed_matrix.log", "build/seed_matrix2.log", "/tmp/r3_first.log"
                 detect.setdefault(m.group(1), []).append({"check": m.group(2), "exit": int(m.group(3)), "violation_lines": int(m.group(4)), "summary": m.group(5)})
 n = 0
 for root in roots:
-    rnd = "r5" if root.endswith("5") else "r4" if root.endswith("4") else "r3" if root.endswith("3") else "r2" if root.endswith("2") else "r1"
+    rnd = "r6" if root.endswith("6") else "r5" if root.endswith("5") else "r4" if root.endswith("4") else "r3" if root.endswith("3") else "r2" if root.endswith("2") else "r1"
     for pid in sorted(os.listdir(root)):
         for x in ("a", "b"):
             d = os.path.join(root, pid, x)
+            if not os.path.isdir(d):
+                continue
             if not os.path.exists(os.path.join(d, "patch.diff")) or d not in confirm or "demo_with_change=1 demo_without=0" not in confirm[d]:
                 continue
             out = os.path.join(V, "seeded", "%s-%s-%s" % (pid, rnd, x))
